@@ -445,7 +445,8 @@ def write_replay(prop, world, viol, steps, tag):
 
 def write_evidence(mod, tier, seed, out, wall, extra=None):
     cov = {
-        "evaluations": int(out.evaluations),
+        "evaluations": int(out.executions),
+        "worlds": int(out.evaluations),
         "distinct_nontrivial": int(len(out.keys)),
         "rule": mod.RULE,
         "samples": to_jsonable(out.samples[:4]) or ["(no sample: every world was inconclusive)"],
